@@ -19,8 +19,8 @@ import (
 	"github.com/protobom/protobom/pkg/sbom"
 
 	"mcverif/engine"
-	"mcverif/props/c05"
 	"mcverif/jsonfault"
+	"mcverif/props/c05"
 	"mcverif/rw"
 )
 
